@@ -412,6 +412,14 @@ impl Scenario for TdScen {
             (Tier::Thorough, _) => 300_000,
         };
         let mut acts = vec![];
+        if self.mode == 1 && rng.chance(1, 120) {
+            // spot run for the size bound: the smallest compressions with a very long stream
+            // (the centroid count of a wrongly normalised scale function grows with ln n)
+            let ks = vec![rng.range(10, 14) as u16];
+            acts.push(Act::Stream { n: 0, shape: *rng.pick(&[0u8, 1, 2, 8]), len: rng.range(600_000, 1_000_000) as u32, seed: rng.next_u64(), scale_exp: 0 });
+            acts.push(Act::Check { n: 0 });
+            return (Cfg { ks }, acts);
+        }
         let steps = 4 + rng.usize_below(24);
         let two = |rng: &mut Rng| {
             let a = rng.below(nn as u64) as u8;
@@ -543,7 +551,7 @@ impl Scenario for TdScen {
                     let i_n = *n as usize % nn;
                     let mut r = Rng::new(*seed);
                     let scale = 10f64.powi((*scale_exp).clamp(-12, 12) as i32);
-                    let len = (*len).min(400_000) as u64;
+                    let len = (*len).min(1_000_000) as u64;
                     st.shape_seq(1000 + *shape as u64);
                     for i in 0..len {
                         let v = gen_value(&mut r, *shape, i, len, scale);
